@@ -139,7 +139,7 @@ CHECKS = {
   technique="Lean 4 theorems for the parser part (C02) and for the collector that freezes (possibly cyclic) types (M-collect, tied to Collector::collect by a script hook) + exhaustive query sweep (exploration) on damaged workspaces",
   text=("Proved: the parser, first stage of every query, never fails a precondition assertion, never bumps past the end and terminates, on every "
         "token list (corollaries of C02's checker soundness, Props/C10.lean); parse_total: the model of parse_module returns a tree for every text "
-        "unless the parser's own look-ahead guard fires (mark discipline + tree builder, Props/C02Marks.lean). Props/C10Collect.lean: collect_total / collectAll_total - "
+        "unless the parser's own look-ahead guard fires (mark discipline + tree builder, Props/C02Marks.lean); parse_always: the guard cannot fire (C02_never_stuck), the first stage of every query returns a tree on EVERY text. Props/C10Collect.lean: collect_total / collectAll_total - "
         "Collector::collect (the placeholder written into the cache before descending is what keeps cyclic types, which occurs-check-free unification produces on half-typed code, finite) returns a type on EVERY "
         "well-formed table whose values mention only variables of the table, cyclic or not, from every collector state, with fuel table size + 1 (measure: classes not yet started); collect_caches / collect_again; "
         "order_matters (kernel-evaluated witness that the answer depends on the order of the requests - the mechanism of the recorded C11 finding). Tied to the code by the hook ide::verif_collect_script: 3000 (thorough 60000) random "
@@ -219,7 +219,8 @@ CHECKS = {
         "conditions are decided on the GENERATED program and policy on every run (glas_mainShape, glas_policyOK, glas_rootStart, glas_noSkip), "
         "giving C01_lossless for the model of parse_module, with or without syntax errors (Props/C01.lean); C01_total (Props/C02Marks.lean): for "
         "EVERY text the model returns such a tree (the builder cannot fail, no node is left unfinished) unless the parser's own look-ahead guard "
-        "fires (the recorded C02 finding). Tie: generated model vs parse_module on "
+        "fires; C01_always (Props/C02Stuck.lean, on top of C02_never_stuck - the look-ahead certificate checker of C02): the guard cannot fire, so for EVERY text the model of parse_module returns a tree "
+        "whose leaves are exactly the lexer's tokens - no exception left. Tie: generated model vs parse_module on "
         "~10^5 inputs (exhaustive token-class sequences to length 3/4, corpus, prefixes, grammar-generated and mutated programs); the round-trip "
         "oracle is evaluated on the implementation."),
   note=TB + SYN, ref="5.C01, 4.1, Appendix A"),
@@ -230,8 +231,12 @@ CHECKS = {
         "the program regenerated from parser.rs (decide +kernel). Hence for every token list: no assert! fails, bump is never called at end of input, "
         "every loop iteration and recursion cycle consumes a token, fuel 746+745*len suffices (C02_safe, C02_terminates). PARTIAL: recursion depth is NOT bounded on the current tree (kernel-evaluated witness depth_witness in "
         "Props/C02Witness.lean, replayed on the implementation, listed in known_findings.json); the parser's own look-ahead guard (`parser is stuck`) fired on deep nesting "
-        "(two recorded findings) until /repo fix e83622f (a finished node refills the budget; the model's `close` follows, stuck_repaired) - that it can no longer fire at all is "
-        "explored (deep, wide and half-typed families), not proved. The hand-written semantics of the DSL primitives (bump, nth, start/finish_node, expect, ...) are pinned to the source: "
+        "(two recorded findings) until /repo fix e83622f (a finished node refills the budget; the model's `close` follows, stuck_repaired). THAT IT CAN NO LONGER FIRE AT ALL IS NOW PROVED: "
+        "laCheck (Model/LaCheck.lean) is a third certificate checker - it pairs every abstract state of `check` (current-token sets, facts, consumed-since flags) with a bound on the "
+        "look-ahead counter (`la <= entry + off` while nothing has been consumed since the procedure's entry, `la <= cst` afterwards), procedure summaries with high-water mark and exit bound, "
+        "loops analysed from an inductive head bound; never_stuck_of_checkWith (Lemmas/LaSound.lean) proves for ALL programs that a program which passes never ends in `parser is stuck`; "
+        "glas_la_checked evaluates it on the regenerated parser (the counter never exceeds 14 of 1024); C02_never_stuck, C02_always_ok: on EVERY token list the run ends normally with all nodes finished; "
+        "C01_always: the model of parse_module returns a lossless tree for EVERY text (Props/C02La.lean, Props/C02Stuck.lean). The hand-written semantics of the DSL primitives (bump, nth, start/finish_node, expect, ...) are pinned to the source: "
         "xlate compares the token text of every primitive method of impl Parser with xlate/primitives.expected and refuses the translation otherwise. Mark discipline (Props/C02Marks.lean): a second "
         "certificate checker mcheck (live marks of each frame as a stack ordered by event position, opened/closed; start_node_before only on the "
         "topmost closed mark; exactly the topmost mark passed to a callee; nothing opened left at any exit) with mcheck_sound proved for all "
